@@ -6,7 +6,7 @@ ID = 'C08'
 HARNESSES = ['h_c06.cpp']
 LEVEL = 'model_checking'
 BUDGET = {'quick': 200, 'thorough': 1200}
-BOUNDS = {'quick': 'families: (a) append then mutate the caller\'s frame through 8 public mutators, (b) same after an indexed store, (c) the same frame object appended 2-3 times then a point/channel column added (by name and by frames) and one stored frame replaced, (d) one vector of frames handed to point() twice under two names while the caller keeps mutating it; shape 2 points x 1 channel x 1 sub-frame; all floats symbolic',
+BOUNDS = {'quick': 'families: (a) append then mutate the caller\'s frame through 8 public mutators, (b) same after an indexed store, (c) the same frame object appended 2-3 times then a point/channel column added (by name and by frames) and one stored frame replaced, (d) one vector of frames handed to point() twice under two names while the caller keeps mutating it, (e) a frame of the data set itself handed back (append / beyond the end / in place) for data sets of 1..5 frames, so that the store reallocates while its argument is read; shape 2 points x 1 channel x 1 sub-frame; all floats symbolic',
           'thorough': 'same families on shapes up to 3x2x2, 2..4 repetitions'}
 OUTSIDE = 'aliasing through API not listed in the anchors (e.g. frames obtained from data().frames() copies)'
 ASSUMPTIONS = []
@@ -22,6 +22,8 @@ def jobs(tier, seed):
             for col in (0, 1, 2, 3):
                 for rep in ((0, 1) if col == 0 else (0,)): J('same-frame-%dx' % times, family=2, times=times, column=col, replace0=rep, P=P, C=C, S=S)
             J('same-vector-twice', family=3, times=times, P=P, C=C, S=S)
+        for times in (1, 2, 3, 4, 5):
+            for how in (0, 1, 2): J('store-own-frame', family=4, times=times, column=how, P=P, C=C, S=S)
     return out
 
 def obligations(sec, job, st):
@@ -47,6 +49,14 @@ def obligations(sec, job, st):
             if len(A2) == len(A):
                 if col in (0, 2): O += c06.frame_eq('same-frame/edit-one', G2, A2[0], 'frame 0 after storing another frame there') if col == 0 else []
                 for k in range(1, len(A)): O += c06.frame_eq('same-frame/others-independent', A[k], A2[k], 'frame %d after frame 0 was replaced' % k)
+    elif fam == 4:
+        B = obsmodel.parse_dump(sec['before'])['frames']; A = obsmodel.parse_dump(sec['after'])['frames']; n = cfg['times']; how = cfg['column']
+        src, dst, cnt = ((0, n, n + 1), (n - 1, n + 1, n + 2), (0, n - 1, n))[how]
+        O.append(Obl('store-own-frame/count', len(A) != cnt, 'storing a frame of the data set itself: %d frames, expected %d' % (len(A), cnt)))
+        if len(A) == cnt:
+            O += c06.frame_eq('store-own-frame/target', B[src], A[dst], 'frame stored from the data set\'s own frame %d' % src)
+            for k in range(len(B)):
+                if k != dst: O += c06.frame_eq('store-own-frame/others-unchanged', B[k], A[k], 'frame %d' % k)
     else:
         A = obsmodel.parse_dump(sec['after'])['frames']
         c1 = sec['col']; c2 = sec['col2']
@@ -62,5 +72,5 @@ def obligations(sec, job, st):
                 O += obsmodel.eq_list('same-vector/names', list(b'colB'), pts[P + 1]['name'], 'name of second added column')
     return O
 
-def run_job(engine, job): return std_run(engine, job, obligations, 'c08.end', ID, job['name'])
+def run_job(engine, job): return std_run(engine, job, obligations, 'c08.end', ID, job['name'], fatal_as='violation')
 native_confirm = native_confirm_by(obligations)
